@@ -470,9 +470,11 @@ def classify(v):
 
 
 MANIFEST_TEXT = (
-    "Held on every execution observed: ~8.5k pumping triples (unit x prefix x "
-    "suffix) at 250 characters plus ladders, structural repetition and token "
-    "soup, each parse timed in CPU seconds inside a CPU-time box and judged "
+    "Held (up to the recorded finding: section ranges that denote tens of "
+    "thousands of tracts) on every execution observed: ~25k pumping triples "
+    "(unit x prefix x suffix) at 250 characters plus ladders, the same units "
+    "in directly parsed Tracts, structural lists, 60 consecutive parses per "
+    "optional mode in one process and token soup, each parse timed in CPU seconds inside a CPU-time box and judged "
     "against 2.0 s x machine factor with two confirming re-runs; thorough "
     "adds the full 62/125/250 ladder and report-only 400/600 sizes with "
     "growth exponents. Bounded exploration of the pumping space, not a "
